@@ -783,6 +783,28 @@ def c15_s(draw, pid, tier, opts=None):
     nreg = draw(st.integers(0, len(UNIVERSE_REG)))
     regs = draw(st.permutations(list(range(len(UNIVERSE_REG)))))[:nreg]
     points = [draw(st.integers(0, nloads)) for _ in regs]    # registration happens before load #point (nloads = after the last)
+    if nloads >= 2 and draw(st.integers(0, 7)) == 0:
+        # one setting followed through every load: consecutive files give the same registered setting values that
+        # differ a little (one half of an address pair, letter case, the spelling of a number), or leave it out so
+        # that its default takes over
+        ri = draw(st.sampled_from([9, 9, 9, 0, 2, 3, 4, 6, 7]))
+        parent, name, kind, params = UNIVERSE_REG[ri]
+        host = draw(st.sampled_from(["::1", "host", "HOST"]))
+        for f_ in files:
+            f_[:] = [e_ for e_ in f_ if not (e_[1] == "o" and e_[0].lower() == "ra")]
+            if draw(st.integers(0, 5)) == 0:
+                continue
+            if kind == "a":
+                val = [host if draw(st.integers(0, 4)) else host.swapcase(), draw(st.sampled_from(["http", "https", "ircd", "ircs", "80", "080", "HTTP", "8080"]))]
+            elif kind == "l":
+                val = draw(st.lists(st.sampled_from(["x", "y", "X", ""]), max_size=3))
+            else:
+                val = draw(st.sampled_from({0: ["dflt", "Dflt", "dflt ", "x"], 1: ["true", "on", "off", "1", "yes", "TRUE"], 2: ["7", "07", "0x7", "8", "-7"],
+                                            3: ["1.5", "1.50", "15e-1", "1.4999999"], 4: ["30", "0:30", "1m", "30s"]}[params[0]]))
+            f_.append(["ra", "o", [[name, kind, val]]])
+        if ri not in regs:
+            regs = list(regs) + [ri]
+            points = points + [draw(st.sampled_from([0, 0, 1]))]
     case = {"files": files, "regs": list(regs), "points": points}
     if draw(st.integers(0, 5)) == 0:
         # before some of the loads a broken version of the same file is offered first (keys are strings for JSON)
